@@ -2,8 +2,11 @@
 """C06 — losses and error functions report the true mean loss and its true gradient.
 
   proofs          Properties_C06.v (thread ranges tile, merge order irrelevant, error = mean per-element loss for every
-                  schedule/batching, equal weights = unweighted, chain rule through weightedParameterDerivative, regularizer
-                  terms, loss table: both code paths agree / batch = sum / gradient), axiom-free over Q
+                  schedule/batching, equal weights = unweighted, chain rule through weightedParameterDerivative for any model
+                  satisfying the C04 contract (instances: linear, two linear layers), regularizer terms, loss table: both code
+                  paths agree / batch = sum / gradient, Huber outside the ball, weighted zero-one loss), axiom-free over Q;
+                  cross-entropy (log-sum-exp shift, softmax - one_hot, both label encodings), Huber and absolute loss for the
+                  polymorphic code over every ordered field with exp/log/sqrt, axiom-free
   correspondence  extracted model (exact Q arithmetic; on real data the float instantiation of the Section-polymorphic
                   cross-entropy (both label encodings), HuberLoss and AbsoluteLoss at 1e-12) vs harness/c06_loss.cpp compiled from
                   /repo on the same case lines: regularizers (G), the 10 loss classes on one batch through batch and
@@ -169,7 +172,7 @@ def gen_labels(rng, name, n, dim, exact=True, scale=1.0):
 def gen_loss_case(rng, exact=True):
     """L line on the whole data as one batch, then AbstractLoss::eval(Data,Data) on several partitions / thread counts, then (real data) a finite-difference line"""
     if exact: name = rng.choice(["sq", "sqc", "hinge", "sqhinge", "eps", "sqeps", "huber", "abs", "zov", "zo", "disc", "hinge", "sqhinge"])
-    else: name = rng.choice(["sq", "sqc", "hinge", "sqhinge", "eps", "sqeps", "huber", "abs", "ce", "ce", "cev", "cev", "ce"])
+    else: name = rng.choice(["sq", "sqc", "hinge", "sqhinge", "eps", "sqeps", "huber", "abs", "ce", "ce", "cev", "cev", "ce", "huber", "abs", "cev"])
     dim = rng.choice([1, 2, 3]) if name in VV else (rng.choice([1, 1, 2, 3, 4]) if name in CV else 1)
     if name == "cev": dim = rng.choice([2, 3, 4])
     n = rng.choice([1, 2, 3, 4, 5, 8] if exact else [1, 2, 3, 5, 7, 12])
@@ -490,9 +493,9 @@ def mon_Z(line, out):
 
 
 # ------------------------------------------------------------------------------------------------ model vs implementation
-def num_equal(m, x, loose):
-    """m: model value (Fraction, or float for the float-instantiated cross-entropy), x: implementation double"""
-    if isinstance(m, float): return close(m, x, 0, RTOL)
+def num_equal(m, x, loose, scale=0.0):
+    """m: model value (Fraction, or float for the float-instantiated polymorphic losses), x: implementation double"""
+    if isinstance(m, float): return close(m, x, scale, RTOL)
     if not finite(x): return False
     if Fraction(x) == m: return True
     try:
@@ -509,6 +512,12 @@ def line_equal(line, mo, io):
     if "MODELEXC" in mo: return False
     dm, di = toks(mo), toks(io)
     loose = " huber " in line[:12] or line.split()[1] == "huber"
+    # HuberLoss gradient on real data: remora evaluates delta/norm*(p - l) as (delta/norm)*p - (delta/norm)*l, so the
+    # rounding error of a gradient entry is relative to |p|, |l| (the conditioning of the expression), not to |p - l|
+    gscale = 0.0
+    if k == "L" and loose and "x" in line:
+        try: gscale = max([abs(float(pq(t))) for sec_ in sections(line)[1:3] for t in sec_ if finite(float(pq(t)))] + [0.0])
+        except (OverflowError, ValueError): gscale = 0.0
     if k == "B":
         cands = []
         for key, val in dm.items():
@@ -527,7 +536,7 @@ def line_equal(line, mo, io):
             if a != b: return False
             continue
         la, lb = mql(a), fhl(b)
-        if len(la) != len(lb) or not all(num_equal(x, y, loose) for x, y in zip(la, lb)): return False
+        if len(la) != len(lb) or not all(num_equal(x, y, loose, gscale if key in ("g", "eg") else 0.0) for x, y in zip(la, lb)): return False
     return True
 
 def compare_case(lines, mo, io):
@@ -539,7 +548,8 @@ def main():
     ck = Check(PID)
     ck.trusted = DEFAULT_TRUSTED + [
         "modelled not verified: the OpenMP runtime delivers one of the modelled schedules (contiguous batch ranges per thread, critical-region merges in some order); libm exp/log/sqrt; remora expression templates (sum, norm_sqr, max) compute the sums the model writes as folds",
-        "cross-entropy is compared through the float instantiation of C06Model.ce_eval/ce_evald (OCaml IEEE doubles, same libm) at 1e-12 and against a log-sum-exp reference at 1e-9; no theorem about it",
+        "cross-entropy (both label encodings), HuberLoss and AbsoluteLoss on real data are compared through the float instantiation of the Section-polymorphic model functions (OCaml IEEE doubles, same libm) at 1e-12 and against a log-sum-exp reference at 1e-9; the theorems about these functions hold over every ordered field with exp/log/sqrt laws (the reals are one), not about IEEE rounding",
+        "the chain-rule theorem for any model needs the model contract (C04: weightedParameterDerivative additive over the batch + adjoint identity); it is proved here for LinearModel and LinearModel >> LinearModel and assumed (finite-difference monitor only) for models with non-linear activations",
         "finite-difference monitors use central differences with steps 2^-17 and 2^-20 (entries where the two disagree, i.e. kinks, are skipped) at 1e-5 relative"]
     ck.assumptions = [
         "datasets are non-empty (ErrorFunctionImpl divides by the number of batches/elements; zero batches is an integer division by zero in the C++)",
